@@ -41,6 +41,9 @@ pub struct Scenario {
 	pub redeliver: Vec<COp>,
 	pub old_head: usize,
 	pub new_head: usize,
+	/// tip of the continuation appended to `redeliver` (blocks on top of the scenario's final
+	/// head): what an uninterrupted node must end on
+	pub cont_tip: Option<usize>,
 }
 
 fn perform(node: &Node, world: &World, op: &COp) -> String {
@@ -236,6 +239,11 @@ fn expected_final(world: &World, sc: &Scenario, base: &Path, tag: &str) -> Resul
 	redeliver(&node, world, sc);
 	let d = node.digest().map_err(|e| format!("{:?}", e));
 	node.destroy();
+	if let (Ok(d), Some(t)) = (&d, sc.cont_tip) {
+		if world.id_of_hash(&d.head) != Some(t) {
+			return Err(format!("uninterrupted twin did not reach the continuation tip #{}: {}", t, d.short()));
+		}
+	}
 	d
 }
 
@@ -580,6 +588,7 @@ pub fn build(seed: u64, long: bool) -> Result<CrashWorld, String> {
 			redeliver: vec![],
 			old_head: trunk[l - 2],
 			new_head: trunk[l - 1],
+			cont_tip: None,
 		});
 		for age in ["recent", "pre-hf3"] {
 			if let Some(x) = extend_with_spend(&mut w, tip, age, 0) {
@@ -592,6 +601,7 @@ pub fn build(seed: u64, long: bool) -> Result<CrashWorld, String> {
 					redeliver: vec![],
 					old_head: tip,
 					new_head: x,
+					cont_tip: None,
 				});
 			}
 		}
@@ -607,6 +617,7 @@ pub fn build(seed: u64, long: bool) -> Result<CrashWorld, String> {
 				redeliver: vec![],
 				old_head: tip,
 				new_head: x,
+				cont_tip: None,
 			});
 		}
 		// S7 header first, then the block
@@ -619,6 +630,7 @@ pub fn build(seed: u64, long: bool) -> Result<CrashWorld, String> {
 			redeliver: vec![],
 			old_head: trunk[l - 2],
 			new_head: trunk[l - 1],
+			cont_tip: None,
 		});
 		// S2 fork block that does not win
 		scenarios.push(Scenario {
@@ -630,6 +642,7 @@ pub fn build(seed: u64, long: bool) -> Result<CrashWorld, String> {
 			redeliver: vec![],
 			old_head: tip,
 			new_head: tip,
+			cont_tip: None,
 		});
 		// S3 reorg with spends on both sides
 		let mut base = trunk.clone();
@@ -643,6 +656,7 @@ pub fn build(seed: u64, long: bool) -> Result<CrashWorld, String> {
 			redeliver: side.iter().map(|i| COp::Block(*i)).collect(),
 			old_head: tip,
 			new_head: side[m - 1],
+			cont_tip: None,
 		});
 		// S4 header-only reorg through sync_block_headers
 		scenarios.push(Scenario {
@@ -654,6 +668,7 @@ pub fn build(seed: u64, long: bool) -> Result<CrashWorld, String> {
 			redeliver: vec![],
 			old_head: tip,
 			new_head: tip,
+			cont_tip: None,
 		});
 	} else {
 		// compaction scenarios: tail ends up around height l-20 rounded down to a multiple of 10
@@ -667,6 +682,7 @@ pub fn build(seed: u64, long: bool) -> Result<CrashWorld, String> {
 			redeliver: vec![],
 			old_head: tip,
 			new_head: tip,
+			cont_tip: None,
 		});
 		for age in ["below-tail", "recent"] {
 			if let Some(x) = extend_with_spend(&mut w, tip, age, tail_h.saturating_sub(2)) {
@@ -679,6 +695,7 @@ pub fn build(seed: u64, long: bool) -> Result<CrashWorld, String> {
 					redeliver: vec![],
 					old_head: tip,
 					new_head: x,
+					cont_tip: None,
 				});
 				scenarios.push(Scenario {
 					kind: "block-after-compaction".into(),
@@ -689,8 +706,33 @@ pub fn build(seed: u64, long: bool) -> Result<CrashWorld, String> {
 					redeliver: vec![],
 					old_head: tip,
 					new_head: x,
+					cont_tip: None,
 				});
 			}
+		}
+	}
+	// continuation: three more blocks on whatever head the scenario ends on, delivered after the
+	// re-delivery. Leftovers of the interrupted step that only matter for later appends (a stale
+	// tail behind the logical end of an MMR file, say) show here and nowhere earlier.
+	for sc in scenarios.iter_mut() {
+		let fin = match sc.kind.as_str() {
+			"fork-block" | "header-reorg" | "compaction" => sc.old_head,
+			_ => sc.new_head,
+		};
+		let mut p = fin;
+		let mut cont = vec![];
+		for _ in 0..3 {
+			match w.extend(p, 2) {
+				Ok(c) => {
+					p = c;
+					cont.push(c);
+				}
+				Err(_) => break,
+			}
+		}
+		if cont.len() == 3 {
+			sc.redeliver.extend(cont.iter().map(|c| COp::Block(*c)));
+			sc.cont_tip = Some(p);
 		}
 	}
 	Ok(CrashWorld { world: w, scenarios })
